@@ -79,6 +79,14 @@ CLAIMS = {
              "SQL, analysed by the real code and the observation is decided by Trace_Stmt (ideal first; a rejected observation is a known "
              "finding only if it equals the deviant track and every fired deviation is listed). Simulated programs reach depth 4.",
         note="trusted: TLC, sqlfluff as parser, the token renderer harness/render_stmt.py; one spelling per program here (C07/C08/C09 vary spelling, naming, dialect)"),
+    "C09": dict(
+        design="5/C09, 3.2",
+        technique="TLA+ model checking (TLC) of Stmt.tla (dialect-free ideal) + TLC-enumerated programs rendered and analysed under every accepting sqlfluff dialect and the sqlparse analyzer + TLC trace validation (Trace_Stmt) of every (program, dialect) observation",
+        text="The specification has no dialect: agreement between dialects follows from every accepting dialect conforming to the same "
+             "BaseTables/Target. Programs printed by TLC (every statement kind over small bodies, sampled deeper bodies) are rendered and "
+             "analysed under ansi, a rotating third (quick) / all (thorough) of the 28 installed dialects and the sqlparse analyzer; "
+             "acceptance is decided by calling the sqlfluff parser directly; each observation is decided by Trace_Stmt.",
+        note="trusted: TLC, sqlfluff as parser (acceptance), the renderer; SELECT INTO counted only where it creates a table (tsql, postgres, redshift, greenplum); column level across dialects is C02's sweep"),
 }
 
 NOT_YET = "check not built yet in this round; planned as described in DESIGN.md section 5"
